@@ -180,11 +180,23 @@ def run(tier, seed, t0):
 
 
 def replay(payload):
-    """Concrete re-run on the compiled kernels at the model's coordinates."""
+    """Concrete re-run on the compiled kernels: the skeleton's own coordinates and the same
+    skeleton at non-integer coordinates (x 0.37)."""
+    from checks.c07 import _scaled
+    ts = SK.all_named()[payload["case_kw"]["skel"]]()
+    out = []
+    for variant in (ts, _scaled(ts, 0.37)):
+        r, info = _replay_on(variant, payload)
+        if r:
+            return r, info
+        out.append(info)
+    return False, "; ".join(out)
+
+
+def _replay_on(ts, payload):
     import tsdate
     from tsdate import rescaling, phasing
     kw = payload["case_kw"]
-    ts = SK.all_named()[kw["skel"]]()
     case = payload["case"]
     if case.startswith("mask:"):
         mask = np.full(ts.num_nodes, False)
